@@ -637,6 +637,35 @@ def r5(ctx):
     a, b = f.params[1], f.params[2]
     par = enclosing_map(f.node)
     r = returns(f.node)
+    if len(r) > 1:
+        # an early exit (`if np.allclose(a, b): return 0.0`): recognised wrong when the test is not the same question asked of (b, a) -
+        # allclose / isclose are relative to their *second* argument, so d(a, b) = 0 does not give d(b, a) = 0
+        import copy as _copy
+        Nn_ = Norm(strict=False)
+
+        def swapped(e_):
+            class Sw(ast.NodeTransformer):
+                def visit_Name(self, x_):
+                    if x_.id == a:
+                        return ast.copy_location(ast.Name(id=b, ctx=x_.ctx), x_)
+                    if x_.id == b:
+                        return ast.copy_location(ast.Name(id=a, ctx=x_.ctx), x_)
+                    return x_
+            return Sw().visit(_copy.deepcopy(e_))
+        asym = []
+        for n_ in walk_own(f.node):
+            if isinstance(n_, ast.If) and any(isinstance(x_, ast.Return) for x_ in ast.walk(n_)) and {a, b} & names_in(n_.test):
+                t_ = n_.test
+                asy_call = [c_ for c_ in ast.walk(t_) if isinstance(c_, ast.Call) and call_name(c_) in ("np.allclose", "np.isclose", "math.isclose") and len(c_.args) >= 2
+                            and U(c_.args[0]) != U(c_.args[1])]
+                if asy_call and not (call_name(asy_call[0]) == "math.isclose"):
+                    asym.append(U(t_))
+                elif U(swapped(t_)).replace(" ", "") != U(t_).replace(" ", "") and Nn_.key(swapped(t_)) != Nn_.key(t_):
+                    asym.append(U(t_))
+        if asym:
+            ctx.bad("R5", f"{f.site()}::symmetric", f"an early exit is taken on `{asym[0]}`, which is not the same test with the two arguments exchanged "
+                    f"(np.allclose / np.isclose scale their tolerance by the second argument): d(a, b) can be 0 while d(b, a) is not")
+            return
     ctx.need(len(r) == 1, f"{f.site()}: single return not found")
     multi = {}
     for n in walk_own(f.node):
